@@ -250,6 +250,9 @@ class Filtration(SimplicialComplex):
                 raise KeyError('Simplex {f} is not in the filtration at index {ind}'.format(f=f, ind=self.getIndex()))
         nid = super().addSimplex(fs, id, attr)
         ind = self.getIndex()
+        if ind not in self._includes.keys():
+            self._includes[ind] = set()
+            self._maxOrders[ind] = -1
         self._appears[nid] = ind
         self._includes[ind].add(nid)
         if self.maxOrder() > self._maxOrders[ind]:
